@@ -27,62 +27,6 @@ theorem SplitRel.age_at {n j bs dj : Nat} {K nbsL : List Nat} {op op2 : OP}
       List.getElem?_append_left (by simp)]
     simp
 
-/-- `expandValue` does nothing when bin `spl` is not a singleton -/
-theorem expandValue_nonsingle {n : Nat} {nb : Nbrs} {cb fl : Sl Nat} {op op' : OP} {w : Bool}
-    (hp : PartInv n op) (hps : PrefixSingle op) (hnext : op.binDividers.toList[op.spl]? ≠ some (op.spl + 1))
-    (h : expandValue nb cb fl op = .ok (w, op')) : w = false ∧ op' = op := by
-  unfold expandValue at h
-  have hle : op.spl ≤ n := Nat.le_trans hps.le hp.bdLen_le
-  have hlo := hp.lenOrder
-  cases hk : op.order.len - op.spl with
-  | zero =>
-    rw [hk] at h
-    simp only [expandLoop, Outcome.ok.injEq, Prod.mk.injEq] at h
-    obtain ⟨rfl, rfl⟩ := h
-    refine ⟨rfl, ?_⟩
-    have : op.order.len = op.spl := by omega
-    rw [this]
-  | succ k =>
-    rw [hk, expandLoop] at h
-    cases hg : op.binDividers.get op.spl with
-    | ok a =>
-      have ha : a ≠ op.spl + 1 := by
-        intro e; subst e
-        exact hnext (Sl.get_eq_toList.1 hg)
-      by_cases h0 : op.spl = 0
-      · simp only [h0, if_true] at h
-        rw [h0] at hg ha
-        rw [hg] at h
-        simp only at h
-        rw [if_pos (by omega)] at h
-        simp only [Outcome.ok.injEq, Prod.mk.injEq] at h
-        obtain ⟨rfl, rfl⟩ := h
-        refine ⟨rfl, ?_⟩
-        rw [← h0]
-      · have hg1 : op.binDividers.get (op.spl - 1) = .ok op.spl := by
-          rw [Sl.get_eq_toList, hps.single (op.spl - 1) (by omega)]
-          congr 1; omega
-        simp only [if_neg h0, hg, hg1] at h
-        rw [if_pos (by omega)] at h
-        simp only [Outcome.ok.injEq, Prod.mk.injEq] at h
-        obtain ⟨rfl, rfl⟩ := h
-        exact ⟨rfl, rfl⟩
-    | panic =>
-      by_cases h0 : op.spl = 0
-      · simp only [h0, if_true] at h
-        rw [h0] at hg
-        rw [hg] at h
-        simp at h
-      · simp only [if_neg h0, hg] at h
-        simp at h
-    | outOfFuel =>
-      exfalso
-      unfold Sl.get at hg
-      split at hg
-      · split at hg <;> cases hg
-      · cases hg
-
-
 /-- the certificate of the prefix does not see the split of a bin behind the prefix -/
 theorem SplitRel.certPos_eq {n j bs dj : Nat} {K nbsL : List Nat} {op op2 : OP} (nb : Nbrs)
     (h : SplitRel n j bs dj K nbsL op op2) (hp : PartInv n op) (hps : PrefixSingle op) :
@@ -95,27 +39,9 @@ theorem SplitRel.certPos_eq {n j bs dj : Nat} {K nbsL : List Nat} {op op2 : OP} 
   · intro p hpl
     exact h.order_lt hp (by omega)
 
-theorem SplitRel.vstale {n j bs dj : Nat} {K nbsL : List Nat} {op op2 : OP} {nb : Nbrs} {cb fl : Sl Nat}
-    (h : SplitRel n j bs dj K nbsL op op2) (hp : PartInv n op) (hv : VStale nb cb fl op) : VStale nb cb fl op2 := by
-  obtain ⟨extra, e1, e2⟩ := hv.val
-  refine ⟨h.prefixSingle hp hv.pre, by rw [h.value]; exact hv.wf, ⟨extra, ?_, ?_⟩, by rw [h.value]; exact hv.poisoned,
-    by rw [h.spl, h.inv.lenOrder, ← hp.lenOrder]; exact hv.lt⟩
-  · rw [h.value, h.spl, h.certPos_eq nb hp hv.pre]; exact e1
-  · rw [h.spl]; exact e2
-
-/-- a stale certificate stays stale (with the same `spl`) in the state `expandValue` returns -/
-theorem staleAge_of_frame {op2 op' : OP} {a : Int} (e2 : op'.binDividers = op2.binDividers)
-    (e3 : op'.binAges = op2.binAges) (e5 : op'.age = a) (es : op'.spl = op2.spl)
-    (h : op2.binDividers.toList[op2.spl]? = some (op2.spl + 1) → op2.binAges.toList[op2.spl]? = some a) :
-    StaleAge op' := by
-  intro hs
-  rw [e2, es] at hs
-  rw [e3, es, e5]
-  exact h hs
-
-/-- `splitCell` and the certificate: as long as it returns `false` the state satisfies `VN`, when it returns `true`
+/-- `splitCell` and the certificate: as long as it returns `false` the state is clean (`VN`), when it returns `true`
 the state satisfies `VAny` -/
-theorem splitCell_cert (hst : StablePerm) (hx : ExpandCert) (hy : ExpandStale) {nb : Nbrs} {n : Nat} {cb fl : Sl Nat}
+theorem splitCell_cert (hst : StablePerm) (hx : ExpandCert) {nb : Nbrs} {n : Nat} {cb fl : Sl Nat}
     {opts : Options} {j : Nat} {op op' : OP} {sc sc' : Scratch} {r : Bool}
     (hp : PartInv n op) (hcc : CellCount op sc.timesSeen sc.maxCell sc.numberOfMax j) (hv : VN nb cb fl op)
     (h : splitCell nb n cb fl opts j (false, op, sc) = .ok (r, op', sc')) :
@@ -123,7 +49,6 @@ theorem splitCell_cert (hst : StablePerm) (hx : ExpandCert) (hy : ExpandStale) {
   rcases splitCell_split hst hp hcc h with ⟨rfl, rfl, rfl⟩ | ⟨bs, dj, K, nbsL, op2, sc2, hrel, _, ht⟩
   · exact ⟨(fun _ => hv), (fun h => by cases h)⟩
   · obtain ⟨_, w, hex, hwr, _⟩ := scTail_ok ht
-    -- it suffices to treat the result of the `expandValue` step
     suffices hw : (w = false → VN nb cb fl op') ∧ (w = true → VAny nb cb fl op') by
       constructor
       · intro hr
@@ -134,14 +59,9 @@ theorem splitCell_cert (hst : StablePerm) (hx : ExpandCert) (hy : ExpandStale) {
         cases w with
         | false => exact (hw.1 rfl).any
         | true => exact hw.2 rfl
-    have hps : PrefixSingle op := by
-      rcases hv with hc | hs
-      · exact hc.pre.toPrefixSingle
-      · exact hs.1.pre
-    have hnext : op.binDividers.toList[op.spl]? ≠ some (op.spl + 1) := by
-      rcases hv with hc | hs
-      · exact hc.pre.next
-      · exact hs.2
+    have hc : VClean nb op := hv
+    have hps : PrefixSingle op := hc.pre.toPrefixSingle
+    have hnext := hc.pre.next
     obtain ⟨s1, _⟩ := hrel.spl_le hp hps
     have hps2 := hrel.prefixSingle hp hps
     by_cases hj : j = op2.spl
@@ -149,25 +69,18 @@ theorem splitCell_cert (hst : StablePerm) (hx : ExpandCert) (hy : ExpandStale) {
       rw [if_pos hj] at hex
       obtain ⟨_, f2, f3, _, f5, _⟩ := expandValue_frame hex
       have hjs : j = op.spl := by rw [hj, hrel.spl]
-      have hage : op2.binDividers.toList[op2.spl]? = some (op2.spl + 1) →
-          op2.binAges.toList[op2.spl]? = some op2.age := by
-        rw [← hj, hrel.age]
-        intro hs
-        exact hrel.age_at hp (by rw [hjs]; exact hnext) hs
-      rcases hv with hc | ⟨hs, _⟩
-      · obtain ⟨g1, g2⟩ := hx n nb cb fl op2 op' w hrel.inv hps2 (by rw [hrel.value]; exact hc.wf)
-          (by rw [hrel.value, hrel.spl, hrel.certPos_eq nb hp hps]; exact hc.val) hex
-        refine ⟨fun hw => Or.inl (g1 hw), fun hw => ?_⟩
-        obtain ⟨k1, k2⟩ := g2 hw
-        exact Or.inr ⟨k1, staleAge_of_frame f2 f3 f5 k2 hage⟩
-      · have hs2 := hrel.vstale hp hs
-        by_cases hsing : op2.binDividers.toList[op2.spl]? = some (op2.spl + 1)
-        · obtain ⟨g1, g2, g3⟩ := hy n nb cb fl op2 op' w hrel.inv hs2 hsing hex
-          subst g1
-          exact ⟨(fun h => by cases h), (fun _ => Or.inr ⟨g2, staleAge_of_frame f2 f3 f5 g3 hage⟩)⟩
-        · obtain ⟨g1, g2⟩ := expandValue_nonsingle hrel.inv hps2 hsing hex
-          subst g1; subst g2
-          exact ⟨(fun _ => Or.inr ⟨hs2, hsing⟩), (fun h => by cases h)⟩
+      obtain ⟨g1, g2⟩ := hx n nb cb fl op2 op' w hrel.inv hps2 (by rw [hrel.value]; exact hc.wf)
+        (by rw [hrel.value, hrel.spl, hrel.certPos_eq nb hp hps]; exact hc.val) hex
+      refine ⟨(fun hw => g1 hw), (fun hw => ?_)⟩
+      obtain ⟨k1, k2⟩ := g2 hw
+      refine Or.inr ⟨k1, j, j + 1, by rw [hj]; exact k2, ?_⟩
+      -- the divider at index `j` is now `j + 1` (prefix of `op'`), hence new, hence of the current age
+      have hd : op2.binDividers.toList[j]? = some (j + 1) := by
+        rw [← f2]; exact k1.pre.single j (by rw [hj]; exact k2)
+      have hage := hrel.age_at hp (by rw [hjs]; exact hnext) hd
+      unfold divs
+      rw [List.getElem?_zip_eq_some, f2, f3, f5, hrel.age]
+      exact ⟨hd, hage⟩
     · -- a bin behind `spl` has been split: nothing the certificate depends on has changed
       rw [if_neg hj] at hex
       simp only [Outcome.ok.injEq, Prod.mk.injEq] at hex
@@ -176,29 +89,86 @@ theorem splitCell_cert (hst : StablePerm) (hx : ExpandCert) (hy : ExpandStale) {
       have hnext2 : op2.binDividers.toList[op2.spl]? ≠ some (op2.spl + 1) := by
         rw [hrel.spl, hrel.bd_lt hp hlt]; exact hnext
       refine ⟨(fun _ => ?_), (fun h => by cases h)⟩
-      rcases hv with hc | ⟨hs, _⟩
-      · exact Or.inl ⟨⟨hps2, hnext2⟩, by rw [hrel.value]; exact hc.wf,
-          by rw [hrel.value, hrel.spl, hrel.certPos_eq nb hp hps]; exact hc.val⟩
-      · exact Or.inr ⟨hrel.vstale hp hs, hnext2⟩
+      exact ⟨⟨hps2, hnext2⟩, by rw [hrel.value]; exact hc.wf,
+        by rw [hrel.value, hrel.spl, hrel.certPos_eq nb hp hps]; exact hc.val⟩
 
 theorem VN.of_btc {nb : Nbrs} {cb fl : Sl Nat} {op : OP} (h : VN nb cb fl op) (b : Sl Int) :
     VN nb cb fl { op with binsToCheck := b } := by
-  rcases h with hc | ⟨hs, hn⟩
-  · exact Or.inl ⟨⟨⟨hc.pre.le, hc.pre.single⟩, hc.pre.next⟩, hc.wf, hc.val⟩
-  · exact Or.inr ⟨⟨⟨hs.pre.le, hs.pre.single⟩, hs.wf, hs.val, hs.poisoned, hs.lt⟩, hn⟩
+  have hc : VClean nb op := h
+  exact ⟨⟨⟨hc.pre.le, hc.pre.single⟩, hc.pre.next⟩, hc.wf, hc.val⟩
 
-theorem carried_cert (hst : StablePerm) (hx : ExpandCert) (hy : ExpandStale) (nb : Nbrs) (n : Nat) (cb fl : Sl Nat)
+theorem carried_cert (hst : StablePerm) (hx : ExpandCert) (nb : Nbrs) (n : Nat) (cb fl : Sl Nat)
     (opts : Options) : Carried2 nb n cb fl opts (VN nb cb fl) (VAny nb cb fl) :=
-  ⟨fun _ _ _ _ _ _ hp hcc hq h => splitCell_cert hst hx hy hp hcc hq h, fun _ b hq => hq.of_btc b⟩
+  ⟨fun _ _ _ _ _ _ hp hcc hq h => splitCell_cert hst hx hp hcc hq h, fun _ b hq => hq.of_btc b⟩
 
 /-- the certificate invariant through the refinement -/
-theorem refine_cert (hst : StablePerm) (hx : ExpandCert) (hy : ExpandStale) {n : Nat} {nb : Nbrs} {cb fl : Sl Nat}
+theorem refine_cert (hst : StablePerm) (hx : ExpandCert) {n : Nat} {nb : Nbrs} {cb fl : Sl Nat}
     {opts : Options} {op op' : OP} {sc sc' : Scratch} {w : Bool}
     (h : PartInv n op) (ha : AgeInv op) (hsc : ScratchOK n sc) (hv : VN nb cb fl op)
     (hr : refine nb cb fl opts op sc = .ok (w, op', sc')) :
     (w = false → VN nb cb fl op') ∧ (w = true → VAny nb cb fl op') := by
   unfold refine at hr
   rw [h.lenOrder] at hr
-  exact (refineLoop_inv2 hst (carried_cert hst hx hy nb n cb fl opts) _ op op' sc sc' w h ha hv hsc.scrInv hr).2.1
+  exact (refineLoop_inv2 hst (carried_cert hst hx nb n cb fl opts) _ op op' sc sc' w h ha hv hsc.scrInv hr).2.1
+
+
+/-- while bin 0 is the singleton `[0, 1)` and `spl = 0`, the refinement never touches `value` / `spl` -/
+theorem carried_init (hst : StablePerm) (nb : Nbrs) (n : Nat) (cb fl : Sl Nat) (opts : Options) (v0 : Sl Nat) :
+    Carried nb n cb fl opts (fun op => op.spl = 0 ∧ op.value = v0 ∧ op.binDividers.toList[0]? = some 1) := by
+  constructor
+  · intro j op op' sc sc' r hp hcc hq h
+    obtain ⟨q1, q2, q3⟩ := hq
+    rcases splitCell_split hst hp hcc h with ⟨_, rfl, rfl⟩ | ⟨bs, dj, K, nbsL, op2, sc2, hrel, _, ht⟩
+    · exact ⟨q1, q2, q3⟩
+    · obtain ⟨_, w, hex, _, _⟩ := scTail_ok ht
+      have hj0 : 0 < j := by
+        apply Nat.pos_of_ne_zero
+        intro hj
+        subst hj
+        have h1 := hrel.hbs
+        have h2 := hrel.hdj
+        simp only [List.getElem?_cons_zero] at h1
+        rw [q3] at h2
+        have e1 : bs = 0 := (Option.some.inj h1).symm
+        have e2 : dj = 1 := (Option.some.inj h2).symm
+        exact hrel.ne1 (by omega)
+      have hne : ¬ j = op2.spl := by rw [hrel.spl, q1]; omega
+      rw [if_neg hne] at hex
+      simp only [Outcome.ok.injEq, Prod.mk.injEq] at hex
+      obtain ⟨_, rfl⟩ := hex
+      exact ⟨by rw [hrel.spl]; exact q1, by rw [hrel.value]; exact q2, by rw [hrel.bd_lt hp hj0]; exact q3⟩
+  · intro op b hq
+    exact hq
+
+/-- the initial refinement (`spl = 0`, empty certificate): bin 0 may be a singleton, so the input need not be clean -/
+theorem refine_cert_init (hst : StablePerm) (hx : ExpandCert) {n : Nat} {nb : Nbrs} {cb fl : Sl Nat}
+    {opts : Options} {op op' : OP} {sc sc' : Scratch} {w : Bool}
+    (h : PartInv n op) (ha : AgeInv op) (hsc : ScratchOK n sc) (hspl : op.spl = 0) (hval : op.value.len = 0)
+    (hcb : cb.len = 0)
+    (hr : refine nb cb fl opts op sc = .ok (w, op', sc')) :
+    PrefixSingle op' ∧ op'.value.WF ∧ op'.value.toList = certPos nb op'.order.toList op'.spl := by
+  have _ := hcb
+  have hwf : op.value.WF := by unfold Sl.WF; omega
+  have hnil : op.value.toList = [] := by unfold Sl.toList; rw [hval]; rfl
+  have hc0 : ∀ o : List Nat, certPos nb o 0 = [] := fun o => by simp [certPos]
+  by_cases hb : op.binDividers.toList[0]? = some 1
+  · unfold refine at hr
+    rw [h.lenOrder] at hr
+    obtain ⟨q1, q2, _⟩ := (refineLoop_inv hst (carried_init hst nb n cb fl opts op.value) _ op op' sc sc' w h ha
+      ⟨hspl, rfl, hb⟩ hsc.scrInv hr).2.1
+    refine ⟨⟨by rw [q1]; exact Nat.zero_le _, fun j hj => by rw [q1] at hj; omega⟩, by rw [q2]; exact hwf, ?_⟩
+    rw [q1, q2, hnil, hc0]
+  · have hv : VN nb cb fl op :=
+      ⟨⟨⟨by rw [hspl]; exact Nat.zero_le _, fun j hj => by rw [hspl] at hj; omega⟩, by rw [hspl]; exact hb⟩, hwf,
+        by rw [hspl, hnil, hc0]⟩
+    obtain ⟨g1, g2⟩ := refine_cert hst hx h ha hsc hv hr
+    cases w with
+    | false =>
+      have hc : VClean nb op' := g1 rfl
+      exact ⟨hc.pre.toPrefixSingle, hc.wf, hc.val⟩
+    | true =>
+      rcases g2 rfl with hc | ⟨hs, _⟩
+      · exact ⟨hc.pre.toPrefixSingle, hc.wf, hc.val⟩
+      · exact ⟨hs.pre, hs.wf, hs.val⟩
 
 end CanonF
